@@ -91,7 +91,7 @@ def run(ctx):
     common.run_cg(ctx, ('dh ', 'ec_params ', 'ecdh ', 'named_groups ', 'dsig', 'content_sig '), common.proj_trunc)
     common.lean_failure_violation(ctx, ok)
     return ctx.finish(LEVEL,
-        rule='ServerDHParams / ECParameters (named and explicit-prime) / ServerECDHParams / DigitallySigned (both forms) / parse_content_and_signature (both flag values) / named groups: independent-encoder values with boundary field lengths (exact), suffixes, corruptions (differential), all 256 curve types (class: rejected with an error unless 1 or 3), named groups swept, strict prefixes (class: never a value; model and implementation must agree on asking for more input vs rejecting - the quantifier of the property names truncations); signatures that are well-formed under both readings, and signatures encoded in one form read with the other flag (the flag alone decides: exact value, or no value when the length found by that reading is not available); distinct = (family, outcome shape)',
+        rule='ServerDHParams / ECParameters (named and explicit-prime) / ServerECDHParams / DigitallySigned (both forms) / parse_content_and_signature (both flag values) / named groups: independent-encoder values with boundary field lengths (exact), suffixes, corruptions (differential), all 256 curve types (class: rejected with an error unless 1 or 3), named groups swept, strict prefixes (class: never a value); signatures that are well-formed under both readings, and signatures encoded in one form read with the other flag (the flag alone decides: exact value, or no value when the length found by that reading is not available); distinct = (family, outcome shape)',
         checker_cmd='cd /verif/lean && lake build TlsModel.Props.C13', assumptions=[])
 
 
